@@ -70,8 +70,11 @@ def _fracs(tier, seed):
 
 def _tables(tier):
     structs = ['s3', 's4', 'sp']
-    valgens = ['lin', 'zig'] + (['tiny0'] if tier == 'thorough' else [])
-    return [[s, v, o, 'std'] for s in structs for v in valgens for o in rb.ORDERS]
+    tabs = [[s, v, o, 'std'] for s in structs for v in ('lin', 'zig') for o in rb.ORDERS]
+    # cruise climb rates that are non-zero but inside the documented zero tolerance
+    t0_orders = rb.ORDERS if tier == 'thorough' else ('gen', 'rev')
+    tabs += [[s, 'tiny0', o, 'std'] for s in structs for o in t0_orders]
+    return tabs
 
 
 def _queries(struct, fracs):
@@ -294,7 +297,7 @@ def _call(pm, ph, alt, mass, fields=(None, None)):
 def _call_all_fields(pm, ph, alt, mass, vio, what):
     """Evaluate under every setting of the irrelevant state fields; results must be identical."""
     res = [_call(pm, ph, alt, mass, f) for f in FIELDS]
-    sig = [(k, r if k == 'ok' else type(r).__name__) for k, r in res]
+    sig = [(k, repr(r) if k == 'ok' else type(r).__name__) for k, r in res]  # repr: NaN-safe comparison
     if any(s != sig[0] for s in sig[1:]):
         vio.append(V('depends-on-irrelevant-state-field', f'{what}: results under (tas, rocd) in {FIELDS}: {sig}'))
     return res[0]
@@ -432,7 +435,7 @@ def _check_point(pm, ref, ph, fl, msel, alt, vio, label, want):
     if isinstance(marg, str):
         # the symbolic mass must behave exactly like the numeric extreme mass
         k2, r2 = _call(pm, ph, alt, mnum)
-        if (k2, r2 if k2 == 'ok' else None) != (kind, res):
+        if (k2, repr(r2) if k2 == 'ok' else None) != (kind, repr(res)):
             vio.append(V('symbolic-mass-mismatch', f'{label}: mass {marg!r} gives {res}, numeric extreme mass {mnum!r} gives {r2!r}'))
         return f'interior-bounded:{marg}'
     return 'interior-bounded'
